@@ -299,6 +299,12 @@ def run_header_vn(case, ctx):
         if named is not None and rr.cls() != "VersionError" and rr.kind == "gfapy":
             ctx.violation("conflict-wrong-class/%s/header-api/%s" % (rr.cls(), way), cfg)
             return
+        gv = call(ctx, "gfa.version", lambda: g.version)
+        if named is not None and gv.ok and gv.value == named:
+            # the version of a Gfa follows from the content it has accepted, never from a value it refused
+            ctx.violation("version-from-refused-content/header-api/%s" % way,
+                          "%s: refused with %s, yet Gfa.version is now %r" % (cfg, rr.cls(), gv.value))
+            return
         if O.obs(g) != before:
             ctx.violation("state-changed-by-refused-header-version/%s" % way, cfg, prop="C08")
         return
